@@ -8,7 +8,7 @@ from pmc.refs.signal import SigModel, SliceRef
 from pmc.engine.tol import alg_close, exact_equal
 
 PROPERTY = 'C18'
-RULE = ("explicit-state BFS: bases {float(4,), float(2,3), complex(3,), python float} x {no initial sensitivity, "
+RULE = ("explicit-state BFS: bases {float(4,), float(2,3), float(2,2,2), complex(3,), python float} x {no initial sensitivity, "
         "initial zero sensitivity (keep_alloc)}; slices: basic, stepped, integer, integer array, tuple of slices, tuple of "
         "integer arrays, tuple mixing a slice with an integer array, nested basic; ~40 operations per base (assign state / sensitivity through base or slice, "
         "add_sensitivity with None / fresh array (mutated afterwards by the harness) / same object twice / same object "
@@ -32,6 +32,9 @@ BASES = {
                         'x': [(slice(None), np.array([2, 0]))], 'y': [(np.array([1, 0]), slice(1, 3))]}),
     'c3': dict(state=lambda: np.array([1 + 1j, 2 - 1j, 0.5j]),
                slices={'a': [SL[0:2]], 'f': [np.array([2, 0])], 'i': [1]}),
+    't222': dict(state=lambda: np.arange(1., 9.).reshape(2, 2, 2),
+                 slices={'a': [0], 'b': [SL[:, 1, :]], 'f': [(np.array([0, 1]), np.array([1, 0]), np.array([0, 0]))],
+                         'x': [(slice(None), np.array([1, 0]), slice(0, 1))], 'e': [SL[..., 1]]}),
     's': dict(state=lambda: 2.5, slices={}),
 }
 SEED_CONST = [0.0, 0.5, -1.25, 2.0]
@@ -49,7 +52,7 @@ def value(kind, what, shape, seed, cplx):
     return v
 
 
-REDUCED = {'v4': ['a', 'f', 'n'], 'm23': ['t', 'f', 'x'], 'c3': ['a', 'f'], 's': []}
+REDUCED = {'v4': ['a', 'f', 'n'], 'm23': ['t', 'f', 'x'], 'c3': ['a', 'f'], 't222': ['b', 'x'], 's': []}
 
 
 def alphabet(kind, reduced=False):
@@ -346,7 +349,7 @@ def generate(tier, seed):
                                                             (5, True)]
     for d, red in plan:
         yield {'__level__': f"depth{d}/{'reduced' if red else 'full'}"}
-        for kind in ('s', 'c3', 'v4', 'm23'):
+        for kind in ('s', 'c3', 'v4', 'm23', 't222'):
             for ws in (False, True):
                 al = alphabet(kind, red)
                 if d <= 3:
